@@ -224,6 +224,7 @@ def run(ctx):
         (GEN + ':_merge_dicts', lambda fn: chain),
         (GEN + ':_merge_lists', lambda fn: bigif),
         (STR + ':resolve_strategy_inline_source', None),
+        (STR + ':resolve_strategy_inline_attachments', None),
         (DEC + ':MergeDecisionBuilder.tryresolve', None),
         (DEC + ':MergeDecisionBuilder.onesided', None),
         ('nbdime.prettyprint:builtin_merge_render', None),
